@@ -118,3 +118,51 @@ done:
 	}
 	return res
 }
+
+// Sequences checks every operation sequence of length 1..depth on a fresh instance WITHOUT merging states. It
+// complements Run: the closure merges states whose observable key is equal, which is exactly what hides state the
+// key cannot see (a cached pointer that only a particular history leaves behind); a bounded enumeration of histories
+// has no such blind spot. run distributes the work (par.Run, passed in to keep this package free of it).
+func (c *Closure) Sequences(depth int, deadline int64, run func(gen func(emit func([]int)), work func([]int) []ClauseFail, collect func([]int, []ClauseFail), deadline int64) bool) *ClosureResult {
+	t0 := time.Now()
+	res := &ClosureResult{}
+	sigSeen := map[string]bool{}
+	var gen func(emit func([]int))
+	gen = func(emit func([]int)) {
+		var rec func(p []int)
+		rec = func(p []int) {
+			if len(p) > 0 {
+				emit(append([]int{}, p...))
+			}
+			if len(p) == depth {
+				return
+			}
+			for o := range c.Ops {
+				rec(append(p, o))
+			}
+		}
+		rec(nil)
+	}
+	work := func(path []int) (fs []ClauseFail) {
+		defer func() {
+			if r := recover(); r != nil {
+				fs = append(fs, ClauseFail{Clause: "no-panic", Sig: "panic:" + normPanic(fmt.Sprint(r)), Msg: fmt.Sprintf("panic: %v", r)})
+			}
+		}()
+		return c.Check(c.Build(path), path)
+	}
+	res.Complete = run(gen, work, func(path []int, fs []ClauseFail) {
+		res.Transitions++
+		for _, f := range fs {
+			res.NViol++
+			k := f.Clause + "\x00" + f.Sig
+			if !sigSeen[k] && len(res.Viol) < 32 {
+				sigSeen[k] = true
+				res.Viol = append(res.Viol, Violation{Harness: c.Name, Params: c.pathString(path), Clause: f.Clause, Sig: f.Sig, Msg: f.Msg + "\noperations: " + c.pathString(path)})
+			}
+		}
+	}, deadline)
+	res.MaxDepth = depth
+	res.Wall = time.Since(t0).Seconds()
+	return res
+}
